@@ -374,6 +374,7 @@ class StackRig:
                 stack.pop()
         self._patch(ccm.Cache, 'get', watched_get)
         self.clients = {}
+        self.seqs = []
         import logging
         self.log = logging.getLogger('pypyr')
         self.saved_log = (self.log.propagate, list(self.log.handlers))
@@ -562,9 +563,96 @@ class StackRig:
             scm.step_cache.clear()
         elif kind == 'noCache':
             config.no_cache = bool(op['b'])
+        elif kind == 'clearSeq':
+            return self.clear_seq(op)
         else:
             raise common.Infra(f'C13 stack: unknown op {kind}')
         return None
+
+    # ---- clear_all / clear_pipes as the sequences they are --------------------------------
+    def cache_instances(self):
+        """name -> object for every module-level cache instance: the globals of pypyr.cache.admin and of every
+        pypyr.cache.* module that have a get and a clear."""
+        lcm, scm, fl, ml, config, admin = self.mods
+        import pypyr.cache.cache as ccm
+        found = {}
+        mods = [admin] + [m for n, m in list(sys.modules.items()) if n.startswith('pypyr.cache.') and m is not None]
+        for m in mods:
+            for n, v in list(vars(m).items()):
+                if isinstance(v, ccm.Cache) and not any(v is x for x in found.values()):
+                    found.setdefault(n, v)
+        return found
+
+    def on_other_thread(self, rop):
+        """a complete, ordinary look-up + run by ANOTHER thread while the caller is parked"""
+        box = {}
+
+        def body():
+            try:
+                self.world.CALLS.clear()
+                box['r'] = self.run(rop)
+            except BaseException as e:  # noqa: BLE001 - handed to the caller's thread
+                box['e'] = e
+        t = threading.Thread(target=body, name='c13-gap-lookup', daemon=True)
+        t.start()
+        t.join(STACK_CASE_TIMEOUT_S)
+        if t.is_alive():
+            raise CaseTimeout()
+        if 'e' in box:
+            raise box['e']
+        return box['r']
+
+    def clear_seq(self, op):
+        """`pypyr.cache.admin.clear_all()` (fn = clear_all) or `loader_cache.clear_pipes()` (fn = clear_pipes) on this
+        thread, parked before every single `<cache>.clear()` / `Loader.clear()` it performs (each instance's clear is
+        wrapped from outside) while another thread completes the look-ups of `gaps[i]`; gaps beyond the last clear
+        run after the call has returned. The order of the single clears is recorded in `self.seqs`."""
+        lcm, scm, fl, ml, config, admin = self.mods
+        gaps = op['gaps']
+        out, order = [], []
+        pos = [0]
+
+        def gap_runs():
+            i = pos[0]
+            pos[0] += 1
+            for rop in (gaps[i] if i < len(gaps) else []):
+                out.append(self.on_other_thread(rop))
+        if op['fn'] == 'clear_all':
+            wrapped = []
+            for name, inst in self.cache_instances().items():
+                def clear(real=inst.clear, name=name):
+                    order.append(name)
+                    gap_runs()
+                    return real()
+                inst.clear = clear
+                wrapped.append(inst)
+            try:
+                admin.clear_all()
+            finally:
+                for inst in wrapped:
+                    try:
+                        del inst.clear
+                    except AttributeError:
+                        pass
+        elif op['fn'] == 'clear_pipes':
+            real = lcm.Loader.clear
+
+            def clear(ld):
+                order.append(next((k for k, v in LOADER_NAMES.items() if v == ld.name), ld.name))
+                gap_runs()
+                return real(ld)
+            lcm.Loader.clear = clear
+            try:
+                lcm.loader_cache.clear_pipes()
+            finally:
+                lcm.Loader.clear = real
+        else:
+            raise common.Infra(f'C13 stack: unknown clearSeq fn {op["fn"]}')
+        nclears = pos[0]
+        while pos[0] < len(gaps):
+            gap_runs()
+        self.seqs.append({'fn': op['fn'], 'order': order, 'n': nclears})
+        return {'multi': out}
 
 
 def run_stack_impl(case, info=None):
@@ -590,7 +678,9 @@ def run_stack_impl(case, info=None):
             finally:
                 if use_alarm:
                     signal.setitimer(signal.ITIMER_REAL, 0)
-            if r is not None:
+            if isinstance(r, dict) and 'multi' in r:
+                runs.extend(r['multi'])
+            elif r is not None:
                 runs.append(r)
         return runs
     finally:
@@ -601,4 +691,5 @@ def run_stack_impl(case, info=None):
             if info is not None:
                 info['nesting'] = sorted(rig.nesting)
                 info['reentries'] = list(rig.reentries)
+                info['seqs'] = list(rig.seqs)
             rig.close()
